@@ -7,14 +7,18 @@ def tables() -> str:
     cls = _find_class(mod, "CellParser")
     seps = _assign_value(cls, "SEPARATORS")
     esc = _assign_value(cls, "ESCAPE_CHARACTER")
-    tmp = _assign_value(_find_func(cls, "cleanse"), "TEMP_CHARACTER")
+    # cleanse unescapes in ONE left-to-right pass (re.sub over escape + [escape|separators]); a
+    # version going through a temporary character (str.replace passes) is a different algorithm
+    import ast
+    cl = _find_func(cls, "cleanse")
+    calls = [n.func.attr for n in ast.walk(cl) if isinstance(n, ast.Call) and isinstance(n.func, ast.Attribute)]
+    single_pass = "sub" in calls and "replace" not in calls
     assert all(isinstance(s, str) and len(s) == 1 for s in seps), seps
     assert isinstance(esc, str) and len(esc) == 1
-    assert isinstance(tmp, str) and len(tmp) == 1
     ws = [c for c in range(0x110000) if not (0xD800 <= c < 0xE000) and chr(c).isspace()]
     return (
         f"def cellSeparators : List Char := [{', '.join(lean_char(s) for s in seps)}]\n"
         f"def cellEscape : Char := {lean_char(esc)}\n"
-        f"def cellTempChar : Char := {lean_char(tmp)}\n"
+        f"def cellUnescapeSinglePass : Bool := {'true' if single_pass else 'false'}\n"
         f"def pyWhitespace : List Nat := [{', '.join(map(str, ws))}]\n"
     )
